@@ -19,7 +19,7 @@ std::string plan_to_text(const Plan &p) {
     std::snprintf(b, sizeof b, "knobs seed=%llu pool_seed=%llu sched_seed=%llu mean_gap=%u max_preemptions=%u locale=%u victim=%u victim_op=%u runner=%u offset=%u threads=%zu\n", (unsigned long long)p.seed,
                   (unsigned long long)p.pool_seed, (unsigned long long)p.sched_seed, p.mean_gap, p.max_preemptions, p.locale, p.victim, p.victim_op, p.runner, p.offset, p.programs.size()); s += b;
     for (size_t t = 0; t < p.programs.size(); t++)
-        for (const BOp &o : p.programs[t]) { std::snprintf(b, sizeof b, "op thread=%zu kind=%s a=%u b=%u c=%u\n", t + 1, bop_name(o.kind), o.a, o.b, o.c); s += b; }
+        for (const BOp &o : p.programs[t]) { std::snprintf(b, sizeof b, "op thread=%zu kind=%s a=%u b=%u c=%u fault=%u\n", t + 1, bop_name(o.kind), o.a, o.b, o.c, o.fault); s += b; }
     for (const Switch &w : p.switches) { std::snprintf(b, sizeof b, "switch event=%llu thread=%u\n", (unsigned long long)w.event, w.thread); s += b; }
     return s;
 }
@@ -48,7 +48,7 @@ bool plan_from_text(const std::string &t, Plan &p, std::string &err) {
             int kind = -1; for (int i = 0; i <= bop_count(); i++) if (name == bop_name(i)) kind = i;
             if (name == "destroy_private") kind = bop_count();
             if (kind < 0) { err = "unknown op " + name; return false; }
-            o.kind = (uint16_t)kind; if (kv(l, "a", v)) o.a = (uint32_t)v; if (kv(l, "b", v)) o.b = (uint32_t)v; if (kv(l, "c", v)) o.c = (uint32_t)v;
+            o.kind = (uint16_t)kind; if (kv(l, "a", v)) o.a = (uint32_t)v; if (kv(l, "b", v)) o.b = (uint32_t)v; if (kv(l, "c", v)) o.c = (uint32_t)v; if (kv(l, "fault", v)) o.fault = (uint32_t)v;
             if (th < 1) th = 1; if (p.programs.size() < th) p.programs.resize(th);
             p.programs[th - 1].push_back(o);
         } else if (!line.compare(0, 7, "switch ")) { Switch w{0, 1}; if (kv(l, "event", v)) w.event = (uint64_t)v; if (kv(l, "thread", v)) w.thread = (uint8_t)v; p.switches.push_back(w); }
@@ -66,6 +66,9 @@ Plan gen_plan(uint64_t runseed) {
     p.max_preemptions = 1 + r.below(64);
     p.locale = r.below(2);
     int nk = bop_count();
+    // fault knob: in a third of the runs one operation in about ten has one of its allocations fail (std::bad_alloc becomes part of that
+    // operation's digest; the solo reference run injects the same fault): code that only runs on a failure path runs concurrently too
+    const unsigned fault_rate = r.below(3) == 0 ? 6 + r.below(10) : 0;
     bool focus = r.below(3) == 0; unsigned fk1 = r.below((uint32_t)nk), fk2 = r.below((uint32_t)nk);
     p.programs.resize(n);
     for (unsigned t = 0; t < n; t++) {
@@ -74,6 +77,7 @@ Plan gen_plan(uint64_t runseed) {
             BOp o; o.kind = (uint16_t)r.below((uint32_t)nk);
             if (focus && r.below(2)) o.kind = (uint16_t)(r.below(2) ? fk1 : fk2);
             o.a = r.below(64); o.b = r.below(64); o.c = r.below(1 << 20);
+            if (fault_rate && r.below(fault_rate) == 0) o.fault = 1 + (r.below(2) ? 0 : r.below(6));
             p.programs[t].push_back(o);
         }
     }
@@ -87,7 +91,7 @@ Plan gen_plan(uint64_t runseed) {
     return p;
 }
 
-struct Shared { const Plan *plan; void *pool; std::vector<std::vector<uint64_t>> digests; };
+struct Shared { const Plan *plan; void *pool; std::vector<std::vector<uint64_t>> digests; uint64_t faults_planned = 0, faults_fired = 0; };
 
 static void thread_body(int tid, void *arg) {
     Shared &S = *static_cast<Shared *>(arg);
@@ -96,8 +100,11 @@ static void thread_body(int tid, void *arg) {
     void *priv = priv_new();
     for (size_t i = 0; i < prog.size(); i++) {
         rt_op_begin((int)i, prog[i].kind, step_budget_for(prog[i]));
+        simrt::heap_op_begin(prog[i].fault);
         uint64_t d = do_op(S.pool, priv, prog[i]);
+        simrt::heap_op_end();
         rt_op_end();
+        if (prog[i].fault) { S.faults_planned++; if (simrt::heap_fault_fired()) S.faults_fired++; }      // (outside the operation window: harness bookkeeping is not an event)
         S.digests[(size_t)tid - 1][i] = d;
     }
     rt_op_begin((int)prog.size(), bop_count(), 3000000);      // destruction of the thread's private objects is an operation too
@@ -144,7 +151,9 @@ RunResult run_plan(const Plan &p, Totals *tot) {
         simrt::SutScope sut;
         void *priv = priv_new();
         for (size_t i = 0; i < p.programs[t].size(); i++) {
+            simrt::heap_op_begin(p.programs[t][i].fault);
             uint64_t d = do_op(S.pool, priv, p.programs[t][i]);
+            simrt::heap_op_end();
             if (d != S.digests[t][i] && !V.set) {
                 V.set = true; V.cls = "result_divergence"; V.site = std::string("diverge(") + bop_name(p.programs[t][i].kind) + ")";
                 V.msg = "thread " + std::to_string(t + 1) + " op #" + std::to_string(i) + " (" + bop_name(p.programs[t][i].kind) + ") produced a different result under the concurrent schedule than when run alone";
@@ -167,6 +176,7 @@ RunResult run_plan(const Plan &p, Totals *tot) {
         tot->runs++; tot->events += rr.stats.events; tot->accesses += rr.stats.accesses; tot->preemptions += rr.stats.preemptions; tot->switches += rr.stats.switches;
         tot->ops += nops; tot->sync_ops += rr.stats.sync_ops;
         tot->strategy[p.victim ? 4 : p.mean_gap == 0 ? 0 : p.mean_gap >= 2000 ? 1 : p.mean_gap >= 150 ? 2 : 3]++;
+        tot->alloc_faults_planned += S.faults_planned; tot->alloc_faults_fired += S.faults_fired;
         tot->locale_runs += p.locale ? 1 : 0; tot->libc_reads += rr.stats.libc_state_reads; tot->libc_writes += rr.stats.libc_state_writes;
     }
     return rr;
@@ -200,9 +210,10 @@ static Outcome run_forked(const Plan &p, std::string *line_out = nullptr, Totals
     if (pid == 0) {
         close(fd[0]); dup2(fd[1], 1); close(fd[1]); alarm(30);
         Totals t; RunResult rr = run_plan(p, &t);
-        std::printf("T %llu %llu %llu %llu %llu %llu %llu %llu %llu %llu %llu %llu %llu %llu %llu\n", (unsigned long long)t.events, (unsigned long long)t.accesses, (unsigned long long)t.preemptions, (unsigned long long)t.switches,
+        std::printf("T %llu %llu %llu %llu %llu %llu %llu %llu %llu %llu %llu %llu %llu %llu %llu %llu %llu\n", (unsigned long long)t.events, (unsigned long long)t.accesses, (unsigned long long)t.preemptions, (unsigned long long)t.switches,
                     (unsigned long long)t.ops, (unsigned long long)t.sync_ops, (unsigned long long)t.strategy[0], (unsigned long long)t.strategy[1], (unsigned long long)t.strategy[2], (unsigned long long)t.strategy[3],
-                    (unsigned long long)t.strategy[4], (unsigned long long)rr.sig, (unsigned long long)t.locale_runs, (unsigned long long)t.libc_reads, (unsigned long long)t.libc_writes);
+                    (unsigned long long)t.strategy[4], (unsigned long long)rr.sig, (unsigned long long)t.locale_runs, (unsigned long long)t.libc_reads, (unsigned long long)t.libc_writes,
+                    (unsigned long long)t.alloc_faults_planned, (unsigned long long)t.alloc_faults_fired);
         const uint8_t *m; int dim; rt_overlap_matrix(&m, &dim);
         std::printf("O"); for (int i = 0; i < dim * dim; i++) if (m[i]) std::printf(" %d", i); std::printf("\n");
         std::printf("W"); for (const Switch &w : rr.recorded) std::printf(" %llu:%u", (unsigned long long)w.event, w.thread); std::printf("\n");
@@ -243,8 +254,8 @@ static Outcome run_forked(const Plan &p, std::string *line_out = nullptr, Totals
     if (tot) {
         size_t tp = buf.find("T ");
         if (tp == 0) {
-            unsigned long long v[15] = {0}; std::sscanf(buf.c_str() + 2, "%llu %llu %llu %llu %llu %llu %llu %llu %llu %llu %llu %llu %llu %llu %llu", &v[0], &v[1], &v[2], &v[3], &v[4], &v[5], &v[6], &v[7], &v[8], &v[9], &v[10], &v[11], &v[12], &v[13], &v[14]);
-            tot->locale_runs += v[12]; tot->libc_reads += v[13]; tot->libc_writes += v[14];
+            unsigned long long v[17] = {0}; std::sscanf(buf.c_str() + 2, "%llu %llu %llu %llu %llu %llu %llu %llu %llu %llu %llu %llu %llu %llu %llu %llu %llu", &v[0], &v[1], &v[2], &v[3], &v[4], &v[5], &v[6], &v[7], &v[8], &v[9], &v[10], &v[11], &v[12], &v[13], &v[14], &v[15], &v[16]);
+            tot->locale_runs += v[12]; tot->libc_reads += v[13]; tot->libc_writes += v[14]; tot->alloc_faults_planned += v[15]; tot->alloc_faults_fired += v[16];
             tot->runs++; tot->events += v[0]; tot->accesses += v[1]; tot->preemptions += v[2]; tot->switches += v[3]; tot->ops += v[4]; tot->sync_ops += v[5];
             for (int i = 0; i < 5; i++) tot->strategy[i] += v[6 + i];
         } else tot->runs++;
@@ -264,6 +275,9 @@ static Plan shrink(const Plan &orig, const Outcome &want, unsigned &tries) {
                 if (best.programs[t].size() <= 1) break;
                 Plan c = best; c.programs[t].erase(c.programs[t].begin() + i); c.switches.clear(); if (still(c)) { best = c; progress = true; }
             }
+        for (size_t t = 0; t < best.programs.size(); t++)
+            for (size_t i = 0; i < best.programs[t].size(); i++)
+                if (best.programs[t][i].fault) { Plan c = best; c.programs[t][i].fault = 0; c.switches.clear(); if (still(c)) { best = c; progress = true; } }
         if (best.mean_gap) { Plan c = best; c.mean_gap = 0; c.switches.clear(); if (still(c)) { best = c; progress = true; } }
         if (best.victim) { Plan c = best; c.victim = 0; c.switches.clear(); if (still(c)) { best = c; progress = true; } }
     }
@@ -329,11 +343,11 @@ int main(int argc, char **argv) {
         }
         int nk = bop_count() + 1;
         std::printf("S {\"runs\": %llu, \"violations\": %llu, \"ops\": %llu, \"events\": %llu, \"steps\": %llu, \"accesses_checked\": %llu, \"nontrivial_runs\": %llu, \"distinct_nontrivial\": %zu, "
-                    "\"faults\": {\"preemptions_injected\": %llu, \"context_switches\": %llu}, \"sync_operations_modelled\": %llu, \"unsupported_primitive_runs\": %llu, "
+                    "\"faults\": {\"preemptions_injected\": %llu, \"context_switches\": %llu, \"allocation_faults_planned\": %llu, \"allocation_faults_fired\": %llu}, \"sync_operations_modelled\": %llu, \"unsupported_primitive_runs\": %llu, "
                     "\"strategies\": {\"serial\": %llu, \"rare_preemption\": %llu, \"medium_preemption\": %llu, \"frequent_preemption\": %llu, \"window_targeted\": %llu}, "
                     "\"libc_process_state\": {\"runs_under_non_C_locale\": %llu, \"modelled_reads\": %llu, \"modelled_writes\": %llu}, \"overlap_pairs\": [",
                     (unsigned long long)tot.runs, (unsigned long long)viols, (unsigned long long)tot.ops, (unsigned long long)tot.events, (unsigned long long)tot.events, (unsigned long long)tot.accesses,
-                    (unsigned long long)nt, distinct.size(), (unsigned long long)tot.preemptions, (unsigned long long)tot.switches, (unsigned long long)tot.sync_ops, (unsigned long long)unsupported,
+                    (unsigned long long)nt, distinct.size(), (unsigned long long)tot.preemptions, (unsigned long long)tot.switches, (unsigned long long)tot.alloc_faults_planned, (unsigned long long)tot.alloc_faults_fired, (unsigned long long)tot.sync_ops, (unsigned long long)unsupported,
                     (unsigned long long)tot.strategy[0], (unsigned long long)tot.strategy[1], (unsigned long long)tot.strategy[2], (unsigned long long)tot.strategy[3], (unsigned long long)tot.strategy[4],
                     (unsigned long long)tot.locale_runs, (unsigned long long)tot.libc_reads, (unsigned long long)tot.libc_writes);
         bool first = true; for (int v : overlap) { std::printf("%s%d", first ? "" : ",", v); first = false; }
